@@ -191,6 +191,10 @@ pub fn execute(
     let mut cancelled: Vec<bool> = vec![false; names.len()];
     let mut custom_used: Vec<bool> = vec![false; opts.custom_env.len()];
     let mut nsteps = 0usize;
+    // spin detection: an actor that keeps coming back to the same point while nobody else moved
+    let mut prev_pt: Vec<Option<(&'static str, usize)>> = vec![None; names.len()];
+    let mut same_cnt: Vec<usize> = vec![0; names.len()];
+    let mut spin_rounds = 0usize;
     let end;
     loop {
         let st = match ctl.settle(20) {
@@ -208,7 +212,24 @@ pub fn execute(
             end = End::Budget;
             break;
         }
-        let ready = ctl.at_points();
+        let ready_all = ctl.at_points();
+        // actors that are spinning (waiting for someone else) are not offered until someone else moved
+        let mut ready: Vec<(usize, PointInfo)> = ready_all
+            .iter()
+            .filter(|(i, p)| !(same_cnt[*i] >= 2 && prev_pt[*i] == Some((p.site, p.obj))))
+            .cloned()
+            .collect();
+        if ready.is_empty() && !ready_all.is_empty() {
+            spin_rounds += 1;
+            if spin_rounds > 40 {
+                end = End::Budget;
+                break;
+            }
+            for c in same_cnt.iter_mut() {
+                *c = 0;
+            }
+            ready = ready_all.clone();
+        }
         // enabled env actions
         let mut env: Vec<(String, String)> = vec![];
         for v in &opts.victims {
@@ -240,12 +261,29 @@ pub fn execute(
                 let obs = ready.iter().find(|(a, _)| *a == i).map(|(_, p)| p.a as i64);
                 let expect = if site.as_deref().map_or(false, |s| s.ends_with(".ret")) { obs } else { None };
                 schedule.push(Step::Go { actor: names[i].clone(), site, expect });
+                if let Some((_, p)) = ready.iter().find(|(a, _)| *a == i) {
+                    if prev_pt[i] == Some((p.site, p.obj)) {
+                        same_cnt[i] += 1;
+                    } else {
+                        same_cnt[i] = 0;
+                    }
+                    prev_pt[i] = Some((p.site, p.obj));
+                    for j in 0..names.len() {
+                        if j != i {
+                            same_cnt[j] = 0;
+                        }
+                    }
+                }
                 ctl.release(i);
                 nsteps += 1;
             }
             Some(Choice::Env(k)) => {
                 let (what, arg) = env[k].clone();
                 schedule.push(Step::Env { what: what.clone(), arg: arg.clone() });
+                for c in same_cnt.iter_mut() {
+                    *c = 0;
+                }
+                ctl.log_env(&what, &arg, &names);
                 nsteps += 1;
                 match what.as_str() {
                     "cancel" => {
@@ -506,7 +544,7 @@ impl Chooser for Dfs {
 }
 
 pub fn trace_json(names: &[String], trace: &[Event]) -> Vec<Value> {
-    trace.iter().map(|e| json!({"actor": names[e.actor], "site": e.site, "obj": e.obj, "a": e.a, "b": e.b})).collect()
+    trace.iter().map(|e| json!({"actor": names.get(e.actor).cloned().unwrap_or_default(), "site": e.site, "obj": e.obj, "a": e.a, "b": e.b})).collect()
 }
 
 pub fn schedule_json(s: &[Step]) -> Value {
